@@ -94,6 +94,38 @@ Definition run_fetch (i : term) : term :=
   | FPanic => TL [TS "panic"; TS "model"]
   end.
 
+(* op "e2e": driver.PProf end to end (real parseFlags, fetch through a Fetcher plug-in or a file,
+   symbolize, report) -- arguments as for "fetch", then the executable named on the command line
+   ("" = none), the -buildid value, the -add_comment value.  Observable: status, the -proto output
+   re-read, the blocks of -traces -addresses, "the interactive session (granularity=addresses; traces; proto;
+   traces) printed the same", "the web interface's /download served the same", the plug-in calls *)
+Definition cli_of (i : term) : cliopts := {| c_exec := gs (gn i 9); c_buildid := gs (gn i 10); c_comment := gs (gn i 11) |}.
+Definition of_rows (t : list (string * bool)) : term := TL (map (fun r => TL [TS (fst r); of_bool (snd r)]) t).
+
+Definition run_e2e (i : term) : term :=
+  match fetch_cli (builtin_plugin (env_of i) (in_script i)) (cli_of i) (in_mode i) (absurl_of i) (in_src i) (in_profile i) with
+  | FOut p' calls => TL [TS "ok"; of_profile p'; TL (map of_rows (traces_view p')); TZ 1; TZ 1; TL (map of_call calls)]
+  | FErr calls => TL [TS "err"; TL (map of_call calls)]
+  | FPanic => TL [TS "panic"; TS "model"]
+  end.
+
+(* rows of -traces: the model knows the (inline) marks and the function names, not the rest of the row *)
+Definition row_matches (m o : term) : bool :=
+  Bool.eqb (gb (gn m 1)) (gb (gn o 1)) && (str_empty (gs (gn m 0)) || contains_sub (gs (gn m 0)) (gs (gn o 0))).
+Fixpoint all2 {A} (f : A -> A -> bool) (a b : list A) : bool :=
+  match a, b with
+  | [], [] => true
+  | x :: a', y :: b' => f x y && all2 f a' b'
+  | _, _ => false
+  end.
+Definition traces_match (m o : term) : bool := all2 (fun x y => all2 row_matches (gl x) (gl y)) (gl m) (gl o).
+
+Definition eqv_e2e (m o : term) : bool :=
+  if String.eqb (gs (gn m 0)) "ok" then
+    String.eqb (gs (gn o 0)) "ok" && term_eqb (gn m 1) (gn o 1) && traces_match (gn m 2) (gn o 2) &&
+    term_eqb (gn m 3) (gn o 3) && term_eqb (gn m 4) (gn o 4) && term_eqb (gn m 5) (gn o 5)
+  else term_eqb m o.
+
 (* op "fetchx": fetchProfiles with a THIRD-PARTY symbolizer plug-in whose behaviour is recorded by the
    harness: arguments = mode, fetched profile, TL [profile as the plug-in left it; error returned;
    pointers consistent (Go's CheckValid verdict at plug-in exit)], source URL, url table *)
@@ -113,6 +145,7 @@ Definition run_C12 (i : term) : term :=
   else if String.eqb (op_of i) "sym2" then run_sym2 a
   else if String.eqb (op_of i) "fetch" then run_fetch a
   else if String.eqb (op_of i) "fetchx" then run_fetchx a
+  else if String.eqb (op_of i) "e2e" then run_e2e a
   else if String.eqb (op_of i) "adjust" then
     match adjust (gz (gn a 0)) (gz (gn a 1)) with
     | Some r => TL [TZ 1; TZ r]
@@ -130,6 +163,7 @@ Definition run_C12 (i : term) : term :=
 
 (* a panic message is not compared *)
 Definition eqv_C12 (i m o : term) : bool :=
+  if String.eqb (op_of i) "e2e" then eqv_e2e m o else
   match m, o with
   | TL (TS "panic" :: _), TL (TS "panic" :: _) => true
   | _, _ => term_eqb m o
@@ -149,10 +183,14 @@ Definition spec_sym (i o : term) : bool :=
     (negb (check_valid p && id_headroomb p p') || (check_valid p' && gb (gn o 3))) &&
     (negb (filter_tables_nonempty i) || names_keptb p p').
 
+(* pprof may fail only for a reason the theorems name (fetch_fails_only_when: the symbol service
+   failed, or the function ids ran out): decided by evaluating the proved model on the input *)
+Definition is_err (t : term) : bool := String.eqb (gs (gn t 0)) "err".
+
 (* the pipeline: the same clauses, between the fetched profile (fake mapping added when it has none)
    and the returned one; an error return hands no profile to the rest of pprof *)
 Definition spec_fetch (i o : term) : bool :=
-  if String.eqb (gs (gn o 0)) "err" then true
+  if String.eqb (gs (gn o 0)) "err" then is_err (run_fetch i)
   else if negb (String.eqb (gs (gn o 0)) "ok") then false
   else
     let p := add_fake (in_profile i) in
@@ -162,9 +200,24 @@ Definition spec_fetch (i o : term) : bool :=
     check_valid p' && gb (gn o 3) && gb (gn o 4) &&
     (negb (filter_tables_nonempty i) || names_keptb p p').
 
+(* end to end: the same clauses between what the command line presents to symbolization (fake
+   mapping, named executable, build id override, comment) and the -proto output; what -traces prints
+   agrees with that output; the session and the web interface print the same *)
+Definition spec_e2e (i o : term) : bool :=
+  if String.eqb (gs (gn o 0)) "err" then is_err (run_e2e i)
+  else if negb (String.eqb (gs (gn o 0)) "ok") then false
+  else
+    let p := add_comment (cli_of i) (cli_input (cli_of i) (in_profile i)) in
+    let p' := profile_of (gn o 1) in
+    frame_okb p p' && lines_attachedb p p' && flags_raisedb p p' &&
+    (force_requested (in_mode i) || left_aloneb p p') &&
+    check_valid p' && gb (gn o 3) && gb (gn o 4) &&
+    traces_match (TL (map of_rows (traces_view p'))) (gn o 2) &&
+    (negb (filter_tables_nonempty i) || names_keptb p p').
+
 (* whatever the symbolizer plug-in did: what fetchProfiles returns is a valid profile *)
 Definition spec_fetchx (i o : term) : bool :=
-  if String.eqb (gs (gn o 0)) "err" then true
+  if String.eqb (gs (gn o 0)) "err" then is_err (run_fetchx i)
   else if negb (String.eqb (gs (gn o 0)) "ok") then false
   else check_valid (profile_of (gn o 1)) && gb (gn o 2).
 
@@ -177,11 +230,15 @@ Definition spec_C12 (i o : term) : bool :=
   if String.eqb (op_of i) "sym" || String.eqb (op_of i) "sym2" then spec_sym (args_of i) o
   else if String.eqb (op_of i) "fetch" then spec_fetch (args_of i) o
   else if String.eqb (op_of i) "fetchx" then spec_fetchx (args_of i) o
+  else if String.eqb (op_of i) "e2e" then spec_e2e (args_of i) o
   else if String.eqb (op_of i) "adjust" then spec_adjust (args_of i) o
   else true.
 
 (* class 34 = F34 (S_Symbolize.in_F34): a fetched mapping without build id whose file is an absolute URL *)
 Definition cls_C12 (i : term) : list Z :=
-  if String.eqb (op_of i) "fetch" && in_F34 (absurl_of (args_of i)) (in_profile (args_of i)) then [34] else [].
+  if String.eqb (op_of i) "fetch" && in_F34 (absurl_of (args_of i)) (in_profile (args_of i)) then [34]
+  else if String.eqb (op_of i) "e2e" &&
+          in_F34 (absurl_of (args_of i)) (cli_input (cli_of (args_of i)) (in_profile (args_of i))) then [34]
+  else [].
 
 Definition judge_C12 := judge_all run_C12 eqv_C12 spec_C12 cls_C12 0%Z.
